@@ -410,7 +410,7 @@ func (c *vf19Case) waitQuiescent() (stuck string) {
 			return "" // nothing left to observe: every further call on a closed conn fails
 		}
 		if p1 >= 2 {
-			return ""
+			return "" // both copiers are parked in scripted calls
 		}
 		// (in a test binary package main is named by its import path, hence suffix matches)
 		marker := fmt.Sprintf(".copyLoop in goroutine %d\n", gid)
@@ -435,9 +435,11 @@ func (c *vf19Case) waitQuiescent() (stuck string) {
 		ret2, p2, ch2 := c.returned, c.parkedLocked(), c.change
 		c.mu.Unlock()
 		if ch1 == ch2 && p1 == p2 && ret == ret2 {
-			if live == p1 && (live > 0 || callerBlocked || ret) {
-				// every live copier is parked in a scripted call; with no copier left,
-				// copyLoop itself must be blocked (otherwise it is about to return).
+			if live == p1 && (callerBlocked || ret) {
+				// Every live copier is parked in a scripted call AND copyLoop itself is
+				// blocked (or has returned).  The second half matters: while copyLoop is
+				// still running it may be about to start the second copier (seen as a
+				// false "no return" once in 24000 free-running cases) or about to return.
 				return ""
 			}
 			if live == p1+liveBlockedElsewhere && liveBlockedElsewhere > 0 {
